@@ -2,7 +2,7 @@
 from __future__ import annotations
 
 import ast
-from typing import Any, Dict, List, Optional, Tuple
+from typing import Any, Dict, List, Optional, Set, Tuple
 
 from .absint import (ren_rat, AV, BoolV, GroupV, IntParam, LevelV, NotImpl, NumV, OpaqueV, Outcome, QuantV, UnitV,
                      Unsupported)
@@ -384,6 +384,70 @@ def _inside(n: Optional[ast.AST], comp: Optional[ast.AST]) -> bool:
 
 
 # ------------------------------------------------------------- memo keyed by numbers
+def check_quantity_ctor(rep: Report, prog: Program, rid: str) -> None:
+    """Quantity(m, u) denotes m x val(u): __init__ stores the magnitude it was given and the unit it was
+    given (or the unit the text parses to).  If the unit text is read through anything that yields a
+    *quantity* (a unit text with a leading scale), the scale has to reach self.magnitude - a store made
+    before the scale was folded in leaves the constructed value off by that scale."""
+    from .cfg import CFG
+    fi = prog.func("Quantity.__init__")
+    ps = fi.params()
+    me, mag, unit = ps[0], ps[1], ps[2]
+    cfg = CFG(fi.node)
+    stores_m = [n for n in ast.walk(fi.node) if isinstance(n, ast.Assign) and any(isinstance(t, ast.Attribute) and t.attr == "magnitude"
+                and isinstance(t.value, ast.Name) and t.value.id == me for t in n.targets)]
+    stores_u = [n for n in ast.walk(fi.node) if isinstance(n, ast.Assign) and any(isinstance(t, ast.Attribute) and t.attr == "unit"
+                and isinstance(t.value, ast.Name) and t.value.id == me for t in n.targets)]
+    if not stores_m or not stores_u:
+        raise AnalysisError("Quantity.__init__: stores of self.magnitude / self.unit not found")
+
+    def sources(e: ast.AST, at: Optional[int], depth: int = 0) -> List[ast.AST]:
+        """The defining expressions that may flow into e at node `at` (parameters appear as themselves)."""
+        if isinstance(e, ast.Name) and at is not None and depth < 4:
+            out: List[ast.AST] = []
+            for d in cfg.reaching_defs(at, e.id):
+                if d is None:
+                    out.append(e)
+                elif isinstance(d, ast.Assign):
+                    val = d.value
+                    if isinstance(d.targets[0], (ast.Tuple, ast.List)) and isinstance(val, (ast.Tuple, ast.List)):
+                        for t_, v_ in zip(d.targets[0].elts, val.elts):
+                            if isinstance(t_, ast.Name) and t_.id == e.id:
+                                val = v_
+                    out += sources(val, cfg.node_of(d), depth + 1) if isinstance(val, ast.Name) else [val]
+                else:
+                    out.append(d)
+            return out
+        return [e]
+    # quantities the unit is projected from
+    projected: Set[str] = set()
+    for st in stores_u:
+        for src in sources(st.value, cfg.node_of(st)):
+            txt = ast.unparse(src)
+            okp = (isinstance(src, ast.Name) and src.id == unit) or (isinstance(src, ast.Call) and ast.unparse(src.func).endswith("Unit.parse")
+                                                                      and len(src.args) == 1 and ast.unparse(src.args[0]) == unit)
+            if okp:
+                rep.ok(rid, f"Quantity.__init__:unit<-{txt[:30]}")
+                continue
+            if isinstance(src, ast.Attribute) and src.attr == "unit" and isinstance(src.value, ast.Name):
+                projected.add(src.value.id)
+                continue
+            rep.fail(rid, f"Quantity.__init__:unit<-{txt[:30]}", f"self.unit is set from `{txt[:50]}`, neither the unit argument nor Unit.parse of it",
+                     fi.where(st))
+    for st in stores_m:
+        srcs = sources(st.value, cfg.node_of(st))
+        plain = all(isinstance(x, ast.Name) and x.id == mag for x in srcs)
+        folded = {q_ for q_ in projected if any(f"{q_}.magnitude" in ast.unparse(x) and mag in {y.id for y in ast.walk(x) if isinstance(y, ast.Name)} for x in srcs)}
+        if projected:
+            rep.check(rid, f"Quantity.__init__:magnitude<-{ast.unparse(st.value)[:20]}", projected <= folded,
+                      f"the unit is taken from a parsed quantity ({sorted(projected)}) but `{ast.unparse(st)}` stores a magnitude that does not include "
+                      "that quantity's magnitude on this path: the leading scale of the unit text is dropped (Quantity(7, '1000 m^-2') is 7 m^-2)",
+                      fi.where(st))
+        else:
+            rep.check(rid, f"Quantity.__init__:magnitude<-{ast.unparse(st.value)[:20]}", plain,
+                      f"`{ast.unparse(st)}` does not store the magnitude argument unchanged", fi.where(st))
+
+
 def check_numeric_memo(rep: Report, prog: Program, resolver: Resolver, rid: str) -> None:
     """functools.lru_cache without typed=True conflates 4, 4.0 and Decimal('4'): a memoised
     function with a parameter that can carry two numeric types returns the first caller's
@@ -397,15 +461,29 @@ def check_numeric_memo(rep: Report, prog: Program, resolver: Resolver, rid: str)
         mi = prog.modules[fi.module]
         numeric = []
         a = fi.node.args  # type: ignore[attr-defined]
+        why = ""
         for x in a.posonlyargs + a.args + a.kwonlyargs:
             alts = resolver.ann_alts(mi, x.annotation) if x.annotation is not None else []
             nums = {full for k, full in alts if k == "inst" and full in ("builtins.int", "builtins.float", "decimal.Decimal")}
             if len(nums) >= 2:
                 numeric.append(x.arg)
+                why = why or "takes numbers of several types"
+            vals = {full.split(".")[-1] for k, full in alts if k == "inst" and full.split(".")[-1] in ("Quantity", "Level", "Measurement")}
+            if vals:
+                numeric.append(x.arg)
+                why = why or f"is keyed by a {'/'.join(sorted(vals))}, whose == and hash identify 5 and 5.0 (and Decimal('5'))"
+            # the body tells numeric types apart, which the cache key cannot
+            for t in ast.walk(fi.node):
+                if isinstance(t, ast.Call) and isinstance(t.func, ast.Name) and t.func.id == "isinstance" and len(t.args) == 2 \
+                        and isinstance(t.args[0], ast.Name) and t.args[0].id == x.arg:
+                    kinds = {ast.unparse(k).split(".")[-1] for k in (t.args[1].elts if isinstance(t.args[1], ast.Tuple) else [t.args[1]])}
+                    if kinds & {"int", "float", "Decimal", "Fraction", "Number", "Real", "Integral", "NUMERIC_CLASSES"} and x.arg not in numeric:
+                        numeric.append(x.arg)
+                        why = why or f"tests isinstance({x.arg}, {'/'.join(sorted(kinds))}) although 3 and 3.0 are one cache key"
         n += 1
         rep.check(rid, q, typed or not numeric,
-                  f"{q} is memoised without typed=True and takes numbers of several types for {numeric}: equal values of different "
-                  "types (4, 4.0, Decimal('4')) share one cache slot, so a Decimal operand can come back as float (and vice versa) "
-                  "depending on earlier calls", fi.where())
+                  f"{q} is memoised without typed=True and {why} ({numeric}): equal values of different "
+                  "types (4, 4.0, Decimal('4')) share one cache slot, so the answer - its type, or even NotImplemented - depends on "
+                  "which caller came first", fi.where())
     if n == 0:
         rep.ok(rid, "package", note="no memoised function")
